@@ -28,6 +28,9 @@ func genC17(t *rapid.T) RoutingCase {
 		cfg.MaxServices, cfg.MaxRoutes = 6, 12
 	}
 	c.Table = gen.Table(t, cfg)
+	if rapid.IntRange(0, 4).Draw(t, "defaultcontainer") == 0 {
+		c.Extra = map[string]int64{"default_container": 1}
+	}
 	for _, r := range genRequests(t, c.Table, cfg, 1, 6) {
 		if !model.CleanPath(r.Path) {
 			continue
@@ -112,7 +115,9 @@ func checkC17(c RoutingCase) (vs []*Violation) {
 	st := stats.For("C17", "TestC17")
 	recA, recB := harness.NewRecorder(), harness.NewRecorder()
 	plain, p1 := buildWith(c.Table, &harness.Options{Router: c.Router}, recA, true)
-	filt, p2 := buildWith(c.Table, &harness.Options{Router: c.Router, OptionsFilter: true}, recB, true)
+	// a fifth of the cases use the package-level DefaultContainer and restful.OPTIONSFilter()
+	asDefault := c.Extra["default_container"] == 1
+	filt, p2 := buildWith(c.Table, &harness.Options{Router: c.Router, OptionsFilter: true, AsDefault: asDefault}, recB, true)
 	if p1 != nil || p2 != nil {
 		return []*Violation{viol("", "building the table panicked: %v / %v", p1, p2)}
 	}
